@@ -5,6 +5,9 @@ level, inside component templates, around slots, inside fills, in loops, nested 
 with consumer components `c` (inject with default; prints k.v, m.v, field names of m and the
 template variable `v`, which must stay empty) and `e` (inject without default -> KeyError
 outside a provider). Oracle: dynamic-scope provider model of mc/prog.py.
+Structured family (page -> a -> b, providers x consumers at five positions each) - also rendered with
+unrelated Python-API renders (own provide; succeeding / failing and caught) inside every component's
+on_render_before / on_render_after hook (mc/prog.py side_attrs): inject results and registries must not change.
 Part 2 (SEQ): all sequences of <= 3 renders over representative programs; each render equals
 its solo result and the provide registries are empty between renders.
 
@@ -15,7 +18,7 @@ from __future__ import annotations
 import itertools
 
 from mc import boot, par
-from mc.prog import CompSpec, Harness, strip_markers
+from mc.prog import SIDE_KINDS, SIDE_POS, CompSpec, Harness, side_attrs, strip_markers
 from mc.proggen import Gen, Profile
 from mc.progrun import compare_outcome, core_of, model_outcome, prog_from_spec, prog_size, prog_spec, run_parts
 
@@ -104,6 +107,10 @@ def worker(w, W, payload):
 PROVIDER_OPTS = (None, ("k",), ("m",), ("k", "m"), ("m", "k"), ("k", "k"))
 
 
+SIDE_VARIANTS = tuple((pos, kind) for pos in SIDE_POS for kind in SIDE_KINDS)
+SIDE_VARIANTS_QUICK = (("before", "fail_child"), ("after", "fail"))
+
+
 def wrap_prov(keys, nodes):
     nodes = tuple(nodes)
     for key in reversed(keys or ()):
@@ -175,6 +182,26 @@ def family_worker(w, W, payload):
                       "page": prog.page_source(), "components": {n: c.source() for n, c in prog.comps.items()}})
         if agg.states == 9 and w == 6:
             agg.sample({"mode": mode, "page": prog.page_source(), "components": {n: c.source() for n, c in prog.comps.items()}, "expected": list(exp)})
+        if bad or res:
+            continue
+        # interference: unrelated Python-API renders (with their own provide, succeeding or failing and caught) inside
+        # every component's hooks must change neither what inject() returns nor what is left in the registries
+        for pos, kind in (SIDE_VARIANTS if tier == "thorough" else SIDE_VARIANTS_QUICK):
+            h.install(prog, extra_attrs=side_attrs(prog, pos, kind))
+            obs2 = h.render_page(prog)
+            agg.transitions += 1
+            agg.validated += 1
+            agg.expected["side:%s:%s" % (pos, kind)] += 1
+            bad2 = compare_outcome(exp, obs2)
+            res2 = residue() if (obs2[0] == "ok" and not bad2) else {}
+            boot.clear_render_registries()
+            if bad2 or res2:
+                what = bad2[1] if bad2 else f"provide registries not empty after a successful render: {res2}"
+                agg.fail(f"{mode}:family:side-{pos}-{kind}:{'output' if bad2 else 'residue'}:providers={provs}:consumers={counts}",
+                         f"[{mode}, unrelated {kind} render inside every on_render_{pos}] {what}",
+                         {"part": "family", "mode": mode, "providers": [list(p) if p else None for p in provs], "consumers": list(counts),
+                          "side": [pos, kind], "page": prog.page_source(), "components": {n: c.source() for n, c in prog.comps.items()}})
+            h.install(prog)
     h.uninstall()
     return agg
 
@@ -267,12 +294,14 @@ def replay(ctx, case):
         provs = tuple(tuple(p) if p else None for p in case["providers"])
         prog = family_program(provs, tuple(case["consumers"]))
         h = Harness()
-        h.install(prog)
+        h.install(prog, extra_attrs=side_attrs(prog, *case["side"]) if case.get("side") else None)
         exp, _ = model_outcome(prog, mode)
         obs = h.render_page(prog)
         res = residue()
         boot.clear_render_registries()
         h.uninstall()
+        if case.get("side"):
+            print("side:      unrelated %s render inside every on_render_%s hook" % (case["side"][1], case["side"][0]))
         print("page:     ", prog.page_source())
         for n, c in prog.comps.items():
             print(f"comp {n}:   ", c.source())
